@@ -17,7 +17,7 @@ from vf.sym import Result
 
 DELAYS = [(0.0, 0), (2.5e-7, 250), (1e-9, 1), (0.5, 500_000_000)]   # (seconds yielded, exact ns)
 INF = 10**18
-K_DELAY, K_SIDE, K_FUT, K_ANY, K_ALL, K_SUB = range(6)
+K_DELAY, K_SIDE, K_FUT, K_ANY, K_ALL, K_SUB, K_NEST = range(7)
 
 
 def _script(sym, tier):
@@ -27,7 +27,7 @@ def _script(sym, tier):
         if tier == "quick" and s == n - 1:
             k = [K_DELAY, K_FUT, K_ALL][sym.choice(f"kind{s}", 3)]     # quick: last step restricted
         else:
-            k = sym.choice(f"kind{s}", 6)
+            k = sym.choice(f"kind{s}", 7)
         if k == K_DELAY:
             steps.append((k, sym.choice(f"dsel{s}", 2 if tier == "quick" else 4)))
         elif k == K_SIDE:
@@ -74,6 +74,8 @@ def scenario(sym, tier):
                     got = yield any_of(futs[0], futs[1])
                 elif k == K_ALL:
                     got = yield all_of(futs[0], futs[1])
+                elif k == K_NEST:
+                    got = yield all_of(any_of(futs[0], futs[1]), futs[1])      # combinators nested, sharing an input
                 else:
                     got = yield from sub(a)
                 plog.append((i, self.now.nanoseconds, got))
@@ -95,7 +97,7 @@ def scenario(sym, tier):
     for (k, a) in steps:
         if k in (K_FUT, K_SUB):
             used.add(a)
-        elif k in (K_ANY, K_ALL):
+        elif k in (K_ANY, K_ALL, K_NEST):
             used.update((0, 1))
     for j in range(NF):
         if (never_last and j == NF - 1) or j not in used:
@@ -138,6 +140,17 @@ def scenario(sym, tier):
             exp.append((i, now, ok))
             if len(ok) == 2:
                 r.wit.add("any_of_both_resolved_by_resume")
+        elif k == K_NEST:
+            # all_of(any_of(f0, f1), f1): the inner race is decided at max(yield instant, first resolve); all resolve with f1
+            first = RR[0] if RR[0] <= RR[1] else RR[1]
+            inner_at = now if now >= first else first
+            winners = [[x, V[x]] for x in (0, 1) if RR[x] <= inner_at]
+            if RR[1] >= INF:
+                alive = False
+                break
+            now = now if now >= RR[1] else RR[1]
+            exp.append((i, now, [[w, V[1]] for w in winners]))
+            r.wit.add("nested_combinators")
         else:
             last = RR[0] if RR[0] >= RR[1] else RR[1]
             if last >= INF:
@@ -155,7 +168,7 @@ def scenario(sym, tier):
                 if gi != ei or gt != et:
                     r.bad("process_resumes_at_the_right_instant", {"step": ei, "got_ns": gt, "expected_ns": et, "steps": steps})
                     break
-                gvn = list(gv) if isinstance(gv, (tuple, list)) else gv
+                gvn = [list(x) if isinstance(x, (tuple, list)) else x for x in gv] if isinstance(gv, (tuple, list)) else gv
                 if not any(gvn == o for o in ok):
                     r.bad("process_receives_the_resolved_value", {"step": ei, "got": gvn, "acceptable": ok, "steps": steps})
                     break
@@ -178,12 +191,12 @@ def scenario(sym, tier):
     for (k, a) in steps:
         if k in (K_FUT, K_SUB) and not (never_last and a == NF - 1):
             r.wit.add("future_step")
-    r.obs = {"steps": steps, "plog": [[a, b, list(c) if isinstance(c, (tuple, list)) else c] for a, b, c in plog]}
+    r.obs = {"steps": steps, "plog": [[a, b, ([list(x) if isinstance(x, (tuple, list)) else x for x in c] if isinstance(c, (tuple, list)) else c)] for a, b, c in plog]}
     return r
 
 
 def _cubes(tier):
-    return [{"kind0": a, "kind1": b} for a in range(6) for b in range(6)]
+    return [{"kind0": a, "kind1": b} for a in range(7) for b in range(7)]
 
 
 MANIFEST = {
@@ -195,11 +208,11 @@ MANIFEST = {
 HARNESSES = [
     H(name="c02_script", fn=scenario, shape="S", cubes=_cubes,
       budget=lambda tier: 600.0 if tier == "quick" else 3000.0,
-      require=lambda tier: ["future_step", "any_of_both_resolved_by_resume", "all_of_waits"],
+      require=lambda tier: ["future_step", "any_of_both_resolved_by_resume", "all_of_waits", "nested_combinators"],
       functions=["Event.invoke", "Event._start_process", "ProcessContinuation.invoke", "ProcessContinuation._normalize_yield",
                  "Event._run_completion_hooks", "SimFuture._park", "SimFuture.resolve", "SimFuture._resume",
                  "SimFuture._add_settle_callback", "any_of", "all_of"],
-      bounds=lambda tier: {"steps": "3 (last one of delay/future/all_of)" if tier == "quick" else 4, "step kinds": ["delay", "delay+side effect", "future", "any_of", "all_of", "yield from sub()"],
+      bounds=lambda tier: {"steps": "3 (last one of delay/future/all_of)" if tier == "quick" else 4, "step kinds": ["delay", "delay+side effect", "future", "any_of", "all_of", "yield from sub()", "all_of(any_of(a,b), b)"],
                            "futures": 2 if tier == "quick" else 3, "resolve instants": "symbolic ns [0,600]", "values": "symbolic [-3,3]",
                            "delays": [d for d, _ in DELAYS], "second resolve of future 0": "symbolic, at or after the first"},
       outside=["symbolic (non-table) float delays", "generators nested deeper than one yield from", "futures shared by two generators (documented as unsupported)",
